@@ -95,7 +95,14 @@ class BrokerState:
             for waiter in sorted(
                 worker_state.collected_waiters, key=lambda x: x.waiter_id
             ):
-                if waiter.has_requirements and not waiter.requirements:
+                if (
+                    waiter.has_requirements
+                    and not waiter.requirements
+                    and waiter.resolved_event is None
+                ):
+                    # A waiter that already holds its resolved event was matched
+                    # before the snapshot; its step is already queued for replay,
+                    # so re-delivering the input would run the step twice.
                     commands.append(
                         TickAddEvent(event=waiter.event, step_name=step_name)
                     )
